@@ -21,11 +21,26 @@ IsDyadicSmall(d) == DIsZero(d) \/ (d[3] >= -6 /\ Len(d[2]) + d[3] <= 6)     \* u
 ExactHalfSteps(d) == \* d * 64 is an integer below 2^24: representable in both float kinds
   LET x == DMulExact(d, <<FALSE, <<6,4>>, 0>>) IN DIsInt(x) /\ NatCmp(CoefAt(DAbs(x), 0), <<1,6,7,7,7,2,1,6>>) < 0
 
+\* what an observer of the received Go value sees: raw Go ints are those numbers
+RECURSIVE Observed(_)
+Observed(v) == IF v[1] = "goint" THEN NumOf(DInt(v[2]))
+               ELSE IF v[1] = "arr" THEN (IF Len(v) = 3 THEN <<"arr", [i \in 1..Len(v[2]) |-> Observed(v[2][i])], v[3]>>
+                                          ELSE <<"arr", [i \in 1..Len(v[2]) |-> Observed(v[2][i])]>>)
+               ELSE v
 RECURSIVE Conv1(_, _), ConvList(_, _, _, _)
 \* <<"ok", received>> | <<"err">> | <<"u">>
 Conv1(kind, v) ==
-  CASE kind = "any" -> <<"ok", IF v[1] = "null" THEN Null ELSE v>>
-    [] kind = "string" -> IF v[1] = "str" THEN <<"ok", v>> ELSE <<"ok", <<"ANY">>>>          \* anything formats; the text is not pinned
+  \* a raw Go int (element of a typed slice): to integer and float parameters as the number it is, to interface parameters
+  \* as itself (observed as that number); to string or *decimal.Big parameters the statement does not say (today:
+  \* string(rune(n)), resp. refused) - not pinned
+  CASE v[1] = "goint" -> IF kind \in IntKinds \cup FloatKinds \cup {"any"} THEN Conv1(kind, NumOf(DInt(v[2]))) ELSE <<"u">>
+    [] kind = "any" -> <<"ok", IF v[1] = "null" THEN Null ELSE Observed(v)>>
+    \* anything formats; a boolean as true / false, a whole number of at most 15 digits as its digits, other texts are not pinned
+    [] kind = "string" -> IF v[1] = "str" THEN <<"ok", v>>
+                          ELSE IF v[1] = "bool" THEN <<"ok", Str(IF v[2] THEN <<116,114,117,101>> ELSE <<102,97,108,115,101>>)>>
+                          ELSE IF v[1] = "num" /\ v[4] = 0 /\ Len(v[3]) <= 15 /\ Len(v[3]) >= 1
+                               THEN <<"ok", Str((IF v[2] THEN <<45>> ELSE <<>>) \o [i \in 1..Len(v[3]) |-> 48 + v[3][i]])>>
+                          ELSE <<"ok", <<"ANY">>>>
     [] kind \in IntKinds ->
          IF v[1] = "num" THEN
             LET t == DTrunc(DecOf(v)) IN
